@@ -82,6 +82,9 @@ CLAIMED['C03'] = ("INSERT / REPLACE ... VALUES (1..4 rows) and INSERT ... SET st
 CLAIMED['C38'] = ("the real Server.onConn, given a connection whose handshake response is one packet of arbitrary symbolic bytes (15 lengths between 0 and 40, right or wrong sequence id) followed by end of stream, returns without a panic escaping the connection goroutine and closes the connection; the real Session.Run / ExecuteCommand, given one command packet (statement execute / send-long-data / close / reset with symbolic ids and payloads, field list, init db, ping, unknown commands) of 0..12 arbitrary bytes on an authenticated session with a prepared statement, answers or closes without an escaping panic and leaves the session usable or closed",
     "newSession is replaced by a constructor without the *net.TCPConn assertion; SHA-1/SHA-256 uninterpreted; handleQuery (COM_QUERY parsing and planning) is a recorder: arbitrary SQL text is not explored; packets longer than 40 bytes, multi-packet payloads and process-level effects (memory exhaustion, goroutine leaks) are outside the bound; 'hang' is only observed as the instruction budget")
 
+CLAIMED['C24'] = ("the real ResourcePool (capacity 1, maximum 2..3, dynamic scale-out) under concurrent clients: no more connections handed out than the maximum, capacity never above the maximum, no connection with two holders, Put never fails, and idle + in-use = capacity with every slot back once at rest. Two explorations by the engine's scheduler (interleavings and action orders are decisions of the path, explored exhaustively within the bound): every interleaving at the pool's channel / mutex / atomic operations with at most one preemption of three Get-hold-Put clients; and every order of 5 actions {start a client, let a gated factory call succeed or fail, return the held connection, scale-in step, SetCapacity} with factory calls blocked at gates",
+    "no SMT query is involved: the inputs of this property are schedules, which the engine enumerates as path decisions; the fine-grained interleaving harness is engine-only (Go cannot force a schedule natively), the gated harness replays natively (other goroutines are given 20 ms to reach their blocking point); the idle-close sweep, Close, timers (their ticks are explicit actions), more than 3 clients and more than one preemption (quick) are outside the bound")
+
 NA_REASON = "check not built yet (work in progress; see DESIGN.md section 3 for the planned harness)"
 NA = {}
 
